@@ -49,6 +49,7 @@ def handlers : List (String × Handler) :=
     ("c09.hist", C09.handler),
     ("c09.hist.pinned", C09.handlerPinned),
     ("c20.load", C20.handler),
+    ("c20.files", C20.filesHandler),
     ("c17.expand", C17.handlerExpand),
     ("c17.lang", C17.handlerLang),
     ("c01.answers", C01.handler),
